@@ -400,6 +400,27 @@ def nt_conditional(ops, obs):
 # ---------------- C08: failing requests ----------------
 def failing_script(g):
     r = g.r
+    if r.random() < 0.12:
+        # native updaters are arbitrary code working in place on the item they are handed (also inside nested maps, also
+        # empty ones): when the request is then rejected (the index key got the wrong type), nothing of it may be seen
+        base = dict(client="c", table="tbl")
+        ops = [dict(op="activate_native", client="c"),
+               dict(op="create_table", client="c", table="tbl", hash=dict(name="h", type="S"), billing="PAY_PER_REQUEST", throughput=True,
+                    attrs=[dict(name="g", type="S")], gsi=[dict(name="gix", hash=dict(name="g"), throughput=True)]),
+               dict(op="add_updater", client="c", table="tbl", expr="SET g = :n", id=1, set={"g": N("7"), "@poke": S("1")}),
+               dict(op="add_updater", client="c", table="tbl", expr="SET v = :v", id=2, set={"v": S("ok"), "@poke": S("1")}),
+               dict(op="add_updater", client="c", table="tbl", expr="SET g = :s", id=3, set={"g": S("z"), "w": {"M": {}}})]
+        for h in ["a", "b", "c"]:
+            ops.append(dict(op="put", item={"h": S(h), "g": S("x"), "m": {"M": r.choice([{}, {"x": S("1")}, {"y": {"M": {}}}])},
+                                             "e": {"M": {}}, "l": {"L": [{"M": {}}]}}, **base))
+        for _ in range(r.randrange(3, 8)):
+            h = r.choice(["a", "b", "c", "d"])
+            e, vs = r.choice([("SET g = :n", {":n": N("7")}), ("SET v = :v", {":v": S("ok")}), ("SET g = :s", {":s": S("z")})])
+            ops.append(dict(op="update", key={"h": S(h)}, expr=e, names={}, values=vs, **base))
+            ops.append(dict(op="get", key={"h": S(h)}, **base))
+        ops.append(dict(op="scan", **base))
+        ops.append(dict(op="scan", index="gix", **base))
+        return ops
     if r.random() < 0.2:
         # an index added after the data: items whose index key attribute has another type than the index declares stay
         # out of it (backfill skips them); a later update that repairs or breaks such an item is all-or-nothing too
